@@ -34,6 +34,8 @@ def cases(draw, tier="quick"):
                                           ["int", "str", "null", "list", "obj", "obj", "objlist"])))
     opts = {"fw": draw(st.sampled_from(gen.FRAMEWORKS)), "unicode": draw(st.booleans()), "meta": draw(st.booleans()),
             "nested": draw(st.booleans()), "pic": draw(st.booleans())}
+    if not opts["unicode"] and any(gen.nfkc_unstable(k) for k in keys):
+        opts["unicode"] = True      # finding nfkc-unstable-key-without-transliteration, excluded by construction
     return {"keys": keys, "kinds": kinds, "opts": opts}
 
 
@@ -59,6 +61,8 @@ def valid(case):
             digit = gen.label_of(k, True)[:1].isdigit() or gen.label_of(k, False)[:1].isdigit()
             if kind not in ("int", "str", "null", "list", "obj", "objlist") or (digit and kind in ("obj", "objlist")):
                 return False
+        if not case["opts"].get("unicode", True) and any(gen.nfkc_unstable(k) for k in keys):
+            return False
         obj = build_object(case)
         for o in c01._objects(obj):
             f = [gen.fold(k) for k in o]
@@ -144,5 +148,5 @@ def check(case):
 
 
 def phases(tier):
-    n = {"quick": 16 * 900, "thorough": 16 * 22000}[tier]
+    n = {"quick": 16 * 1500, "thorough": 16 * 22000}[tier]
     return [dict(name="main", kind="hypothesis", strategy=cases(tier), check=check, examples=n)]
